@@ -690,13 +690,16 @@ EdnsView(m, pos) ==
     ELSE [ok |-> TRUE, v |-> <<e.item[3], e.item[4] \div 256, e.item[4] % 256, e.item[5], e.item[7]>>]
 
 CvOut(x) == [ok |-> x.ok, und |-> x.und, item |-> x.item, next |-> x.next]
+\* (TLC evaluates a function constructor anew at every application; Tup makes
+\* it a tuple of values once)
+Tup(f) == f \o <<>>
 CodecView(nr, m, starts) ==
-  [names |-> [i \in 1..Len(starts) |-> CvOut(CvName(nr, m, starts[i]))],
-   qs |-> [i \in 1..Len(starts) |-> CvOut(CvQuestion(nr, m, starts[i]))],
-   rs |-> [i \in 1..Len(starts) |-> CvOut(CvRecord(nr, m, starts[i]))],
+  [names |-> Tup([i \in 1..Len(starts) |-> CvOut(CvName(nr, m, starts[i]))]),
+   qs |-> Tup([i \in 1..Len(starts) |-> CvOut(CvQuestion(nr, m, starts[i]))]),
+   rs |-> Tup([i \in 1..Len(starts) |-> CvOut(CvRecord(nr, m, starts[i]))]),
    \* the EDNS view <<payload size, extended rcode, version, flags, options>> of
    \* an OPT record with the root owner, whichever way it is obtained
-   edns |-> [i \in 1..Len(starts) |-> EdnsView(m, starts[i])],
+   edns |-> Tup([i \in 1..Len(starts) |-> EdnsView(m, starts[i])]),
    msg |-> NewView(nr, m)]
 
 \* The routes without decompression: the octets from..to of m taken as a
@@ -721,10 +724,32 @@ PvRecord(r, b) ==
   LET x == CvRecordR(r, b, 0)
   IN [ok |-> x.ok, und |-> x.und, item |-> x.item, next |-> x.next, exact |-> x.ok /\ x.next = Len(b)]
 PlainView(m, probes) ==
-  [i \in 1..Len(probes) |->
-     LET b == Slice(m, probes[i][1], probes[i][2])
-     IN [n |-> PvName(b), sk |-> PvSkip(b), q |-> PvQuestion(b),
-         rn |-> PvRecord("plain", b), ro |-> PvRecord("old", b)]]
+  Tup([i \in 1..Len(probes) |->
+         LET b == Slice(m, probes[i][1], probes[i][2])
+         IN [n |-> PvName(b), sk |-> PvSkip(b), q |-> PvQuestion(b),
+             rn |-> PvRecord("plain", b), ro |-> PvRecord("old", b)]])
+
+\* One S->I case of C19: the message, where to read items in it, which
+\* stretches to read as byte strings of their own, and - part of the input -
+\* where the referee gives no verdict on the RDATA (`und`: the executor
+\* still performs the call and reports "undecided" once the record's framing
+\* is read).  Expected: every route of both codecs gives the referee's view;
+\* under D_new_ptr_rule the new codec's message routes give the view of its
+\* own pointer rule.
+CodecCase(m, starts, probes) ==
+  LET v == CodecView(FALSE, m, starts)
+      vn == CodecView(TRUE, m, starts)
+      pv == PlainView(m, probes)
+      und == [rs |-> [i \in 1..Len(starts) |-> v.rs[i].und],
+              msg |-> IF v.msg.end = "und" THEN Len(v.msg.items) ELSE -1,
+              rn |-> [i \in 1..Len(probes) |-> pv[i].rn.und],
+              ro |-> [i \in 1..Len(probes) |-> pv[i].ro.und]]
+  IN [in |-> [m |-> m, starts |-> starts, probes |-> probes, und |-> und],
+      exp |-> [old |-> v, new |-> v, agree |-> TRUE,
+               pold |-> [i \in 1..Len(probes) |-> [n |-> pv[i].n, sk |-> pv[i].sk, ro |-> pv[i].ro]],
+               pnew |-> [i \in 1..Len(probes) |->
+                           [n |-> pv[i].n, sk |-> pv[i].sk, q |-> pv[i].q, rn |-> pv[i].rn]]],
+      dev |-> IF vn # v THEN [D_new_ptr_rule |-> [new |-> vn, agree |-> FALSE]] ELSE [none |-> 0]]
 
 ---------------------------------------------------------------------------
 (* Laws (checked by TLC over the enumerated messages in MC_Wire)            *)
